@@ -723,6 +723,15 @@ impl FromStr for FormatSpec {
     }
 }
 
+/// An argument index or subscript is a run of decimal digits only (`"+1"` is a key, not an index).
+fn parse_field_index(text: &str) -> Option<usize> {
+    if text.bytes().all(|b| b.is_ascii_digit()) {
+        text.parse().ok()
+    } else {
+        None
+    }
+}
+
 #[derive(Debug, PartialEq)]
 pub enum FieldNamePart {
     Attribute(String),
@@ -754,7 +763,7 @@ impl FieldNamePart {
                         if ch == ']' {
                             return if index.is_empty() {
                                 Err(FormatParseError::EmptyAttribute)
-                            } else if let Ok(index) = index.parse::<usize>() {
+                            } else if let Some(index) = parse_field_index(&index) {
                                 Ok(FieldNamePart::Index(index))
                             } else {
                                 Ok(FieldNamePart::StringIndex(index))
@@ -793,7 +802,7 @@ impl FieldName {
 
         let field_type = if first.is_empty() {
             FieldType::Auto
-        } else if let Ok(index) = first.parse::<usize>() {
+        } else if let Some(index) = parse_field_index(&first) {
             FieldType::Index(index)
         } else {
             FieldType::Keyword(first)
